@@ -203,6 +203,11 @@ func (cr *CheckRun) VerifyFunc(e *FuncEnc, entry string, filter func(o *Obligati
 		cr.EngineErrors = append(cr.EngineErrors, "contract error: "+se)
 	}
 	cr.mu.Unlock()
+	if os.Getenv("GOAGVC_DEBUG_OBLS") != "" {
+		for _, o := range all {
+			fmt.Printf("OBL %-10s %v %s\n", o.Status, o.Props, o.Name)
+		}
+	}
 	for _, o := range mine {
 		cr.mu.Lock()
 		cr.Obligations++
